@@ -387,7 +387,13 @@ func TestResponderRetransmits(t *testing.T) {
 					t.Skip("already unbound")
 				}
 				h.U(3, uint64(s.info.SSRC))
-				ic.UnbindLocalStream(s.info)
+				if rapid.Bool().Draw(t, "bySSRCOnly") {
+					// the stream is identified by its SSRC: the application need not keep the negotiated StreamInfo to remove it
+					ic.UnbindLocalStream(&interceptor.StreamInfo{SSRC: s.info.SSRC})
+					classes["unbind-by-ssrc-only"] = true
+				} else {
+					ic.UnbindLocalStream(s.info)
+				}
 				s.bound = false
 				s.model = &streamModel{size: size}
 				classes["unbind"] = true
